@@ -61,6 +61,10 @@ type MapObj struct {
 
 func newMap() *MapObj { return &MapObj{m: map[interface{}]int{}} }
 
+type constKey struct{ t *term.Term }
+
+func (c constKey) String() string { return fmt.Sprintf("%s:%x:%v", c.t.Sort, c.t.C, c.t.F) }
+
 type ifaceKey struct {
 	t string
 	v interface{}
@@ -72,7 +76,7 @@ func (in *Interp) mapKey(k Value) interface{} {
 		if !k.IsConst() {
 			in.unsupported("symbolic map key")
 		}
-		return k
+		return constKey{k}
 	case string:
 		return k
 	case *Value:
@@ -84,6 +88,18 @@ func (in *Interp) mapKey(k Value) interface{} {
 			return ifaceKey{}
 		}
 		return ifaceKey{types.TypeString(k.T, nil), in.mapKey(k.V)}
+	case Array:
+		s := "A"
+		for _, e := range k {
+			s += fmt.Sprintf("|%v", in.mapKey(e))
+		}
+		return s
+	case Struct:
+		s := "S"
+		for _, e := range k {
+			s += fmt.Sprintf("|%v", in.mapKey(e))
+		}
+		return s
 	}
 	in.unsupported(fmt.Sprintf("map key of kind %T", k))
 	return nil
